@@ -50,7 +50,8 @@ def main():
         finally:
             sh(["git", "-C", REPO, "checkout", "--", "."])
         res["detected_by"] = [p for p, v in res["checks"].items() if any(l.startswith("VIOLATION") for l in v["lines"])]
-        json.dump(res, open(os.path.join(d, f"result-{tier}.json"), "w"), indent=1)
+        tag = os.environ.get("SEEDED_TAG")     # e.g. SEEDED_TAG=seed1 VERIF_SEED=1: a second opinion with another random stream
+        json.dump(res, open(os.path.join(d, f"result-{tier}{'-' + tag if tag else ''}.json"), "w"), indent=1)
     return 0
 
 def readme():
